@@ -3,7 +3,10 @@
 // exact rational type Q.  Needs the add-only hook repo_patches/hook_sched_access.patch (friend ::amgcl_verif::access).
 //
 // Ops (the same text is fed to the Lean model, Amgcl/Driver/Schedule.lean):
-//   sched_gs  fwd nt A rhs x             tables of parallel_sweep<fwd> built with nt threads + x after the sweep
+//   sched_gs  fwd nt A rhs x             tables of parallel_sweep<fwd> built with nt threads + x after the sweep.  Result
+//                                        line: `nt N` then per thread `t K beg end ... o <ord> p <ptr> c <col> v <val>`
+//                                        (`d <D>` in addition for the upper ILU solve) — the complete thread-specific
+//                                        storage of step 4, compared token by token with Model/ScheduleLocal.lean
 //   sched_gs_asis fwd nt A rhs x         the same op; the model side uses the level loop of the UNPATCHED tree.  Only
 //                                        generated when the tree under test still has that loop (probe_variant), to tie
 //                                        the as-is model (counterexample theorems) to the as-is code
